@@ -138,3 +138,46 @@ def check_for(ctx, prop):
         ctx.check(good, prop + ".INIT", fn.key, "init-installs-configured-state", why or "ok", detail=str(sorted(got)), loc=fn.loc())
     ctx.count("init_specs", n)
     ctx.floor(prop + ".INIT", "init specifications", n, len(SPEC.get(prop, [])))
+
+
+# ------------------------------------------------------------------ require(): the documented requirements are checked and reported
+REQ_SPEC = {
+    # property -> [(impl self ADT, trait, [state types execute needs from elsewhere (own identifier where generic)])]
+    "C07": [("mahf::components::archive::ElitistArchiveIntoPopulation", "mahf::components::Component", ["mahf::components::archive::ElitistArchive<P>"])],
+    "C18": [("mahf::components::swarm::pso::ParticleVelocitiesUpdate", "mahf::components::Component",
+             ["mahf::components::swarm::pso::BestParticles<P, I>", "mahf::components::swarm::pso::BestParticle<P, I>"])],
+    "C19": [("mahf::components::generative::AsPheromoneUpdate", "mahf::components::Component", ["mahf::components::generative::PheromoneMatrix"]),
+            ("mahf::components::generative::MinMaxPheromoneUpdate", "mahf::components::Component", ["mahf::components::generative::PheromoneMatrix"])],
+    "C20": [("mahf::components::misc::cro::" + n, "mahf::components::Component", ["mahf::components::misc::cro::ChemicalReaction<P>", "mahf::components::misc::cro::EnergyBuffer"])
+            for n in ("OnWallIneffectiveCollisionUpdate", "DecompositionUpdate", "IntermolecularIneffectiveCollisionUpdate", "SynthesisUpdate")],
+}
+
+
+def check_requires(ctx, prop):
+    """K6: require() of the listed components over every presence pattern of the state types the component's execute
+    takes from elsewhere: Ok iff all are present (a missing one is reported, never dropped); other requirements it may state
+    are taken as met."""
+    import itertools
+    from absint import err
+    F = ctx.facts
+    n = 0
+    for adt, trait, needs in REQ_SPEC.get(prop, []):
+        fn = F.method(adt, "require", trait)
+        for present in itertools.product((True, False), repeat=len(needs)):
+            have = dict(zip(needs, present))
+            asked = []
+
+            def oracle(interp, env, f, args, t, bb, path):
+                if f.get("key") == "mahf::state::require::StateReq::require":
+                    ty = (f.get("cgargs") or f.get("gargs") or [None])[-1]
+                    asked.append(ty)
+                    return ok(Agg("tuple", None, None, [])) if have.get(ty, True) else err(Sym("missing:%s" % ty))
+                return TOP
+            it = install(Interp(fn.body, chain(oracle, coll_oracle, std_oracle), [Sym("self"), Sym("problem"), Sym("state_req")], facts=F, max_visits=6))
+            outs = sorted({(p.end, p.ret.variant if isinstance(p.ret, Agg) else None) for p in it.run()}, key=str)
+            want = [("return", "Ok" if all(present) else "Err")]
+            n += 1
+            missing = [t_ for t_, p_ in have.items() if not p_]
+            ctx.check(outs == want, prop + ".REQ", fn.key, "requirements-checked:" + ("all-present" if not missing else "missing:" + ",".join(m.split("::")[-1] for m in missing)),
+                      "with %s missing (it asks for %s): require() yields %s, expected %s" % (missing or "nothing", sorted(set(map(str, asked))), outs, want), loc=fn.loc())
+    ctx.count("require_scenarios", n)
